@@ -774,3 +774,46 @@ func (w *World) wholeStoresOfNamed(name string) []*ssa.Store {
 	}
 	return out
 }
+
+// loopHeaders returns the blocks of f that have a back edge.
+func loopHeaders(f *ssa.Function) []*ssa.BasicBlock {
+	var out []*ssa.BasicBlock
+	for _, b := range f.Blocks {
+		for _, p := range b.Preds {
+			if b.Dominates(p) {
+				out = append(out, b)
+				break
+			}
+		}
+	}
+	return out
+}
+
+// earlyLoopExits lists the edges that leave the natural loop of header h from
+// its body (break / goto / return), not counting the header's own exit edge.
+// When allowErrReturn is set, a body block ending in a return whose last
+// result is a non-nil error is not reported.
+func earlyLoopExits(f *ssa.Function, h *ssa.BasicBlock, allowErrReturn bool) []*ssa.BasicBlock {
+	var out []*ssa.BasicBlock
+	for _, b := range f.Blocks {
+		if b == h || !inLoopBody(h, b) {
+			continue
+		}
+		for _, s := range b.Succs {
+			if s == h || inLoopBody(h, s) {
+				continue
+			}
+			// the successor is outside the loop: allowed only if it is an error return
+			if allowErrReturn {
+				if r, ok := s.Instrs[len(s.Instrs)-1].(*ssa.Return); ok && len(s.Succs) == 0 {
+					rv := retVals(r)
+					if len(rv) > 0 && !isNilConst(rv[len(rv)-1]) && types.TypeString(rv[len(rv)-1].Type(), nil) == "error" {
+						continue
+					}
+				}
+			}
+			out = append(out, b)
+		}
+	}
+	return out
+}
